@@ -224,6 +224,124 @@ def gen_bimatrix(rng, m, n, kind):
     return A, B
 
 
+def gen_const_nonpos(rng, m, n):
+    """integer game in which a row of B (player 1's payoffs against one action of player 0) and a column of A are
+    constant with a non-positive value, other entries negative or mixed"""
+    lo = rng.choice([-5, -3])
+    A = np.array([[rng.randrange(lo, 4) for _ in range(n)] for _ in range(m)], dtype=float)
+    B = np.array([[rng.randrange(lo, 4) for _ in range(n)] for _ in range(m)], dtype=float)
+    B[rng.randrange(m)] = rng.choice([0, -1, -2, -4])
+    A[:, rng.randrange(n)] = rng.choice([0, -1, -2, -4])
+    if rng.random() < 0.4:
+        B[:, rng.randrange(n)] = rng.choice([0, -1, -3])
+    if rng.random() < 0.4:
+        A[rng.randrange(m)] = rng.choice([0, -1, -3])
+    return A, B
+
+
+def gen_kd_degenerate(rng, smax):
+    """degenerate game with payoffs k/d, d in {3, 7, 9}: many ties, duplicated rows and columns"""
+    m, n, d, r = rng.randrange(2, smax + 1), rng.randrange(2, smax + 1), rng.choice([3, 7, 9]), rng.choice([1, 2, 3])
+    A = [[rng.randrange(-r, r + 1) for _ in range(n)] for _ in range(m)]
+    B = [[rng.randrange(-r, r + 1) for _ in range(n)] for _ in range(m)]
+    if rng.random() < 0.6:
+        i, j = rng.sample(range(m), 2)
+        A[i] = list(A[j])
+        if rng.random() < 0.5:
+            B[i] = list(B[j])
+    if rng.random() < 0.6:
+        i, j = rng.sample(range(n), 2)
+        for row in B:
+            row[i] = row[j]
+        if rng.random() < 0.5:
+            for row in A:
+                row[i] = row[j]
+    return np.array(A, dtype=float) / d, np.array(B, dtype=float) / d
+
+
+# (d, numerators of A, numerators of B, initial pivots): degenerate games found by an offline search (pure-Python re-run
+# of the tableaux) in which, for the listed pivots, a rounding-noise entry in (1e-15, 1e-10] occurs in the pivot column of
+# a candidate row of the min-ratio test: a guard weaker than TOL_PIV pivots on it and ends, converged, in a non-equilibrium
+LH_NOISE_CORPUS = [[9, [[-2, -1, 2, 1, -1], [2, -1, -2, -2, -1], [1, 2, -2, 1, 2]],
+    [[0, 1, 0, -1, 1], [2, -2, 2, -2, -2], [2, 1, 1, -1, 1]],
+  [2, 4, 6, 7]],
+  [7, [[1, 0, 1, 1, -1], [-1, 0, -1, -2, 2], [2, 0, -1, 0, -1], [2, 0, -1, 0, -1]],
+    [[-2, 1, 1, 2, 2], [-1, 0, 0, 0, -1], [0, -2, -2, 1, 1], [0, -2, -2, 1, 1]],
+  [2, 3, 4, 5]],
+  [9, [[2, 0, 1], [-2, -2, 1], [-1, 2, 1], [-2, -2, 1], [-1, 1, 1]],
+    [[-1, 1, -1], [1, 2, -1], [-2, -1, 1], [1, 2, -1], [1, 0, -1]],
+  [0, 1, 3, 6]],
+  [7, [[-1, 2, -2, -1], [-1, 0, 0, 0], [-2, 2, -2, -2], [-1, 0, 0, 0], [1, 1, 2, 1]],
+    [[-2, -1, 1, -1], [-2, -1, 1, 2], [-2, 0, -1, -1], [-2, -1, 1, 2], [2, 2, -1, 0]],
+  [1, 3, 5, 8]],
+  [7, [[1, -1, -1, 1, -1], [0, -1, 0, 0, -1], [0, -1, -1, -1, 0], [-1, -1, 0, 0, -1], [1, -1, -1, 1, -1]],
+    [[0, -1, 0, -1, -1], [0, 1, 1, -1, 1], [0, 0, 0, 0, 0], [1, -1, -1, -1, -1], [0, -1, 0, -1, -1]],
+  [0, 4, 6, 8]],
+  [9, [[0, -1, -1, -1], [0, 0, -1, 0], [0, -1, 0, -1], [0, -1, -1, -1]],
+    [[-1, 0, 1, 0], [0, -1, 0, -1], [1, 1, -1, 1], [1, -1, 0, -1]],
+  [0, 5, 6, 7]],
+  [9, [[-1, 1, 2, 2, 1], [-1, -1, 1, 1, -1], [-2, 1, 2, 2, 1], [-2, 1, 2, 2, 1]],
+    [[-2, 0, 2, 2, -1], [-2, 1, -2, -2, -2], [2, -1, 0, 0, -2], [2, -1, -1, -1, -1]],
+  [1, 5, 8]],
+  [9, [[1, 2, 2, -2], [-1, -1, 1, 2], [0, -1, -1, 1], [0, -1, -1, 1], [1, 2, 0, -2]],
+    [[0, -1, -1, -1], [2, 2, -1, -1], [1, 1, -2, -2], [0, 1, -2, -2], [2, 2, 2, 2]],
+  [0, 5, 7]],
+  [9, [[0, 0, -3, -1, 3], [2, 1, -3, 1, -2], [-3, -2, 1, 3, 0], [3, -2, 2, 2, -2], [2, 1, -3, 1, -2]],
+    [[-1, 3, -1, 2, -2], [2, 1, 2, -2, 2], [3, 0, 3, 3, -2], [-1, -2, -1, -1, -2], [2, 1, 2, -2, 2]],
+  [1, 4, 6]],
+  [7, [[-2, -2, 0], [2, 2, -1], [-1, 2, 2], [1, 2, -1], [-1, 2, 2]],
+    [[-2, -1, 0], [0, 1, -1], [2, 0, 1], [-1, -1, 1], [2, -2, -1]],
+  [2, 4, 5]],
+  [9, [[2, 0, 1], [0, -1, -2], [-1, 1, 1], [0, 1, -1]],
+    [[2, -1, 2], [1, -2, 2], [0, 2, 0], [2, 0, 1]],
+  [3, 5]],
+  [7, [[-1, -1, 1, 0, -1], [0, -1, -1, 0, 1], [-1, 0, -1, -1, 1]],
+    [[-1, 1, 1, 1, 1], [1, 1, 0, -1, -1], [-1, -1, 0, 0, 1]],
+  [3, 6]],
+  [9, [[0, 0, 0, 1], [-1, 0, -1, -1], [0, 0, 0, -1]],
+    [[-2, 2, -2, 0], [-2, 1, -2, -2], [2, 1, 2, 2]],
+  [3, 5]],
+  [7, [[0, -1, -1, 1], [1, 0, 0, 0], [1, 1, 1, 0], [1, 0, 0, 0]],
+    [[0, 1, -1, -1], [0, -1, -1, 0], [1, 1, 1, 1], [-1, -1, -1, 0]],
+  [3, 4]],
+  [7, [[1, 0, 0], [-2, 0, -1], [1, -1, -2], [-2, 0, -1]],
+    [[2, 2, 0], [-1, -2, 1], [1, 1, 1], [-1, -2, 1]],
+  [1, 3]],
+  [3, [[1, -2, 0, 3, -2], [2, 0, -2, 1, -2], [2, 1, -1, 1, 3], [-1, 3, -1, 0, 2]],
+    [[-2, 2, -2, -3, 2], [-1, -1, -3, 2, -1], [0, 1, -3, -1, 1], [-2, 0, 3, 3, 0]],
+  [3, 5]],
+  [3, [[-2, 2, -1, -2, -2], [0, -2, 0, -2, -2], [0, 2, 2, 2, -1], [-1, 2, 2, -1, -1], [0, -2, 0, -2, -2]],
+    [[2, -2, -2, -2, 0], [0, 1, -1, 2, -1], [-1, 0, 0, -2, -1], [1, -1, 0, -1, 1], [0, 1, -1, 2, -1]],
+  [1, 4]],
+  [9, [[-1, 1], [-1, 1], [2, 1], [1, -1], [1, 2]],
+    [[1, 0], [1, 0], [0, 0], [-1, 2], [2, 2]],
+  [0, 1]],
+  [3, [[1, 2, -2, 0], [1, 1, -2, 0], [1, 2, 2, -2], [1, 1, -2, 0], [-2, -2, 1, -1]],
+    [[1, 0, 2, 1], [1, 0, -1, 2], [2, -2, 1, 1], [-1, -1, 0, 1], [0, 1, -1, -1]],
+  [4, 6]],
+  [9, [[2, 1, -1], [2, -1, -2], [1, 1, -1]],
+    [[0, -1, 0], [-2, -2, -2], [-2, 2, -2]],
+  [3]],
+  [7, [[0, -1, 0, -1], [0, 0, -1, 1], [0, -1, -1, 1]],
+    [[-1, 0, 0, 1], [0, 1, 1, -1], [-1, -1, -1, -1]],
+  [4]],
+  [7, [[2, 1, 1, 1, -2], [1, -3, 1, 0, -2]],
+    [[0, 2, -3, 2, 3], [-1, -2, 3, -2, 0]],
+  [2]],
+  [7, [[-1, 1, -1], [0, 1, 1], [-1, 1, 1]],
+    [[1, 0, 0], [0, 1, 0], [1, 0, 1]],
+  [0]],
+  [9, [[-3, 3, -1, 2], [-2, 3, -2, 2]],
+    [[0, 1, 2, 3], [0, 3, 2, 2]],
+  [4]],
+  [9, [[2, 1, 2, 1, 0], [1, -2, 2, 0, 0]],
+    [[-2, 1, 2, -2, 1], [-2, -1, -2, -1, 2]],
+  [2]],
+  [3, [[0, -3, 0], [3, 2, -3], [-3, -1, -1], [-3, -3, -1], [3, 3, -3]],
+    [[1, 0, 0], [3, 0, 0], [0, 3, 3], [-1, 1, 1], [0, 3, 3]],
+  [6]]]
+
+
 def run(ctx):
     from quantecon.game_theory import NormalFormGame, Player, lemke_howson, support_enumeration, vertex_enumeration, pure_nash_brute
     from quantecon.game_theory.vertex_enumeration import _BestResponsePolytope, _ints_arr_to_bits
@@ -238,13 +356,29 @@ def run(ctx):
     kinds_rep = {"generic": 2} if not thorough else {}
     NTOL = Fraction(1, 10**9)
 
-    se_cases, se_meta, lhf_cases, lhq_cases, lh_meta, ve_cases, ve_meta = [], [], [], [], [], [], []
+    se_cases, se_meta, lhf_cases, lhq_cases, lh_meta, ve_cases, ve_meta, lhf_meta = [], [], [], [], [], [], [], []
+    game_list = []
     for (m, n) in shapes:
         for kind in kinds:
             for rep in range(max(reps, kinds_rep.get(kind, 0)) if (m, n) != (1, 1) else 1):
                 if not thorough and kind in ("struct", "zero_sum") and (m + n) % 2 == 1 and min(m, n) > 1:
                     continue
-                A, B = gen_bimatrix(rng, m, n, kind)
+                game_list.append((kind,) + gen_bimatrix(rng, m, n, kind))
+        # constant non-positive rows of B / columns of A (values 0, -1, -2, -4): the shift logic of the polytopes
+        for rep in range(4 if thorough else 2):
+            if m >= 2 and n >= 2 or rep == 0:
+                game_list.append(("const_nonpos",) + gen_const_nonpos(rng, m, n))
+    game_list.append(("const_nonpos", np.array([[1.0, 3.0], [2.0, 1.0]]), np.array([[-4.0, -4.0], [-4.0, -3.0]])))
+    game_list.append(("const_nonpos", np.array([[-1.0, 2.0, 0.0], [-1.0, 0.0, 3.0]]), np.array([[0.0, 0.0, 0.0], [-2.0, 1.0, -2.0]])))
+    # degenerate games with payoffs k/3, k/7, k/9 (not binary fractions: rounding noise in exactly-zero tableau entries)
+    for d, An, Bn, _pivots in LH_NOISE_CORPUS:
+        game_list.append(("kd_corpus", np.array(An, dtype=float) / d, np.array(Bn, dtype=float) / d))
+    for rep in range(400 if thorough else 40):
+        game_list.append(("kd_degenerate",) + gen_kd_degenerate(rng, smax))
+    for kind, A, B in game_list:
+            if True:
+                m, n = A.shape
+                float_only = kind in ("kd_corpus", "kd_degenerate")   # exact-Q Coq runs and exact enumeration are skipped
                 g = NormalFormGame((Player(A), Player(B.T.copy())))
                 Aq, Bq = fr_mat(A), fr_mat(B)
                 Bt = B.T
@@ -252,7 +386,7 @@ def run(ctx):
                 desc = {"A": A, "B": B}
                 scale = 1 + max(abs(frac(v)) for v in list(A.ravel()) + list(B.ravel()))
                 nontriv = m >= 2 and n >= 2
-                nondeg = is_nondegenerate(Aq, Bq)
+                nondeg = (not float_only) and is_nondegenerate(Aq, Bq)
                 ctx.count("bimatrix:%s:%s" % (kind, "nondegenerate" if nondeg else "degenerate"))
                 exact = exact_support_enumeration(Aq, Bq) if nondeg else None
 
@@ -279,8 +413,9 @@ def run(ctx):
                 ctx.count("se:count=%d" % min(len(se), 9))
                 for ne in se:
                     check_nash("support_enumeration", ne, {})
-                se_cases.append(tup("%d%%nat" % m, "%d%%nat" % n, qlist2(Aq), qlist2(fr_mat(Bt)), clist([pairq(ne) for ne in se], "list Q * list Q")))
-                se_meta.append(desc)
+                if not float_only:
+                    se_cases.append(tup("%d%%nat" % m, "%d%%nat" % n, qlist2(Aq), qlist2(fr_mat(Bt)), clist([pairq(ne) for ne in se], "list Q * list Q")))
+                    se_meta.append(desc)
                 se_r = [rat_profile(ne) for ne in se]
                 if nondeg:
                     if not same_set(se_r, exact) or len(se) % 2 != 1:
@@ -316,7 +451,9 @@ def run(ctx):
                 runs_f, runs_q = [], []
                 for ip in range(m + n):
                     settings = [(10**6, None), (10**6, 1), (10**6, 2), (10**6, 10)]
-                    if rng.random() < 0.3:
+                    if float_only:
+                        settings = [(10**6, None), (10**6, rng.choice([1, 2, 10]))]
+                    elif rng.random() < 0.3:
                         settings.append((rng.choice([1, 2, 3, 5]), rng.choice([None, 1, 2])))
                     for mi, cap in settings:
                         try:
@@ -344,9 +481,11 @@ def run(ctx):
                         runs_q.append(tup(*head, pairq(ne), *tail))
                 lhf_cases.append(tup("%d%%nat" % m, "%d%%nat" % n, flist2(A.tolist()), flist2(Bt.tolist()),
                                      clist(runs_f, "nat * Z * option Z * (list float * list float) * bool * Z * nat")))
-                lhq_cases.append(tup("%d%%nat" % m, "%d%%nat" % n, qlist2(Aq), qlist2(fr_mat(Bt)),
-                                     clist(runs_q, "nat * Z * option Z * (list Q * list Q) * bool * Z * nat")))
-                lh_meta.append(desc)
+                lhf_meta.append(desc)
+                if not float_only:
+                    lhq_cases.append(tup("%d%%nat" % m, "%d%%nat" % n, qlist2(Aq), qlist2(fr_mat(Bt)),
+                                         clist(runs_q, "nat * Z * option Z * (list Q * list Q) * bool * Z * nat")))
+                    lh_meta.append(desc)
     bad = ctx.coq_check("support_enumeration", IMPORTS, "nat * nat * list (list Q) * list (list Q) * list (list Q * list Q)", "se_ok", se_cases,
                         chunk=max(1, len(se_cases) // 14), preamble=PRE)
     for i in bad:
@@ -359,7 +498,7 @@ def run(ctx):
     bad = ctx.coq_check("lemke_howson_float", IMPORTS, "nat * nat * list (list float) * list (list float) * list (nat * Z * option Z * (list float * list float) * bool * Z * nat)",
                         "lhf_ok", lhf_cases, chunk=max(1, len(lhf_cases) // 14), preamble=PRE)
     for i in bad:
-        ctx.mismatch("C05.Model.lemke_howson (PrimFloat instance, bit-exact NE, converged, num_iter, init) vs lemke_howson", lh_meta[i])
+        ctx.mismatch("C05.Model.lemke_howson (PrimFloat instance, bit-exact NE, converged, num_iter, init) vs lemke_howson", lhf_meta[i])
     badq = ctx.coq_check("lemke_howson_exact", IMPORTS, "nat * nat * list (list Q) * list (list Q) * list (nat * Z * option Z * (list Q * list Q) * bool * Z * nat)",
                          "lhq_ok", lhq_cases, chunk=max(1, len(lhq_cases) // 14), preamble=PRE)
     # the PrimFloat instance is the tie to the code; the exact instance follows the same path unless rounding breaks an
